@@ -63,3 +63,55 @@ def run(ctx, chk, tier):
                     chk.violation("R03", q, inst, "scores rep %s=%s easy=(%d,%d) target r=%s: %s" % (rname, SCORE_REPS[rname], ep, en, r, got),
                                   "%s = %s (the %s achievable value)" % (metric, want, "lowest" if r <= 0 else "highest"), ctx.where(q))
     chk.floor("R03", 72, "6 metrics x 4 configurations x 3 methods")
+    sentinel_dtype(ctx, chk)
+
+
+def is_float_typed(v):
+    """Provably a floating-point array/scalar (the scores' own dtype is unknown: it may be an integer type)."""
+    from ..terms import App, Num, Sym, Const
+    if isinstance(v, App):
+        if v.fn == "fresh":
+            return v.kwd("dtype") == Const("float") or is_float_typed(v.args[0])
+        if v.fn in ("getitem", "asarray", "reshape", "store"):
+            return is_float_typed(v.args[0])
+        if v.fn in ("nextafter_up", "nextafter_down", "nextafter", "inv", "sqrt"):
+            return True
+        if v.fn in ("floor", "ceil", "min", "max"):
+            return any(is_float_typed(a) for a in v.args)
+        if v.fn in ("ite", "where"):
+            return is_float_typed(v.args[1]) and is_float_typed(v.args[2])
+        return False
+    if isinstance(v, Num):
+        return any(is_float_typed(a) for a in v.poly.atoms())
+    if isinstance(v, Sym):
+        return "floattyped" in v.tags
+    return False
+
+
+def sentinel_dtype(ctx, chk):
+    """R03.2: the array that receives the one-ulp sentinels must be floating point (an integer array would truncate them back onto the score)."""
+    from ..terms import App, Const, Sym
+    from ..spec import returns
+    from .thr import INV, METHODS
+    S = Sym("S", ("param", "array", "sorted", "notnone"))
+    RHO = Sym("rho", ("param", "array", "notnone", "floattyped"))
+    fn = ctx.fn(INV)
+    for method in METHODS:
+        outs = ctx.explore(lambda: ctx.ev.call(fn, [S, RHO, Const(True), Const(method)], {}), chk)
+        rets = returns(outs)
+        if len(rets) != 1:
+            chk.unknown("R03.2", "inversion core (%s): %d return paths" % (method, len(rets)))
+            continue
+        v = rets[0].value
+        sent = []
+        while isinstance(v, App) and v.fn == "store":
+            sent.append(v.args[2])
+            v = v.args[0]
+        if not sent or not all(isinstance(x, App) and x.fn.startswith("nextafter") for x in sent):
+            chk.unknown("R03.2", "inversion core (%s): sentinel stores not recognised" % method)
+            continue
+        if is_float_typed(v):
+            chk.hold("R03.2", "sentinel-dtype:" + method, "sentinels are stored into a float array: %s" % show(v, 120))
+        else:
+            chk.violation("R03.2", INV, "sentinel-dtype:" + method, "sentinel stored into %s, whose dtype is the scores' own (possibly integer) dtype" % show(v, 160),
+                          "a floating-point array (scores.astype(float)) so that nextafter(score, +-inf) is representable", ctx.where(INV))
